@@ -573,7 +573,8 @@ def check(run):
         "strings, names and numbers), every keyword of either grammar version as a name; %d objects built through the public "
         "classes (well grouped by construction, plus a not-well-grouped stream); every case again in the alternate run (fresh "
         "interpreters, TZ JST-9 / EST5EDT / UTC0 / +05:45, PYTHONHASHSEED 4242, reverse order, 2.0 before 2.1 on the same text, "
-        "other public argument forms). "
+        "other public argument forms; programmatic objects also with a history: paths built from a prefix of their steps, "
+        "the object printed, the rest added through ObjectPath.merge / property_path, then observed). "
         "Model and implementation are compared on tree shape, visitor result or exception class, str(), tokens of str(), "
         "meaning of tree and object, and the re-parse.  A case is non-trivial when the visitor produced an object and the "
         "pattern has more than one comparison or a qualifier/parenthesis" % (n_random, depth, n_prog))
@@ -745,7 +746,7 @@ def check(run):
     for c in alt_cases:
         if c["kind"] == "prog" and c.get("wg") is None:
             c["wg"] = False
-    by_class_alt = attribute(run, alt_cases, impl_alt, problems_alt, "pattern (alternate run: TZ, hash seed, order, argument forms)")
+    by_class_alt = attribute(run, alt_cases, impl_alt, problems_alt, "pattern (alternate run: TZ, hash seed, order, argument forms, print-then-mutate history)")
     run.coverage["oracle_failures_by_class_alternate_run"] = by_class_alt
     size = lambda v: len(json.dumps(v.replay.get("case", {}).get("text") or v.replay.get("case", {}).get("spec") or ""))   # noqa: E731
     # smallest failing input first; the unclassified ones that will be printed are shrunk
